@@ -1,6 +1,7 @@
 import MemcVerif.Proofs.Cmds
 import MemcVerif.Proofs.Decimal
 import MemcVerif.Model.Policy
+import MemcVerif.Proofs.Policy
 import MemcVerif.Proofs.TablesTie
 /-!
 # C07 — counters: arithmetic, creation and error rules
@@ -102,34 +103,6 @@ The counter rules do not depend on memory: whatever the limit (also one below a 
 the victims the request's own eviction takes, the policy never turns an incr/decr into a failure — it has no 'out of
 memory' answer, and its eviction loop only removes items. -/
 
-/-- the eviction loop never touches the CAS counter -/
-theorem evictLoop_casId (value : Nat) (tape : List Key) (p : Policy) (u : Nat) :
-    (Policy.evictLoop value tape p u).inner.casId = p.inner.casId := by
-  induction tape generalizing p u with
-  | nil => unfold Policy.evictLoop; split <;> (try split) <;> rfl
-  | cons v rest ih =>
-    unfold Policy.evictLoop
-    by_cases hg : u > p.limit
-    · simp only [hg, if_true]
-      by_cases he : p.inner.len = 0
-      · simp [he]
-      · simp only [he, if_false]
-        cases hl : p.inner.mem.lookup v with
-        | none => rfl
-        | some r => simp only; rw [ih]
-    · simp [hg]
-
-/-- a store without CAS behind the policy is always acknowledged, with the next CAS, and its record is in the store
-    afterwards — for every limit, usage and tape of victims -/
-theorem policy_set_cas0 (p : Policy) (now : Nat) (k : Key) (r : Record) (h : r.header.cas = 0) :
-    (p.set now k r).2 = .ok p.inner.casId ∧
-    (p.set now k r).1.inner.mem.lookup k = some (stamp r p.inner.casId now) := by
-  have hc : (p.incrMemUsage r.len).inner.casId = p.inner.casId := by
-    unfold Policy.incrMemUsage; exact evictLoop_casId _ _ _ _
-  simp only [Policy.set]
-  rw [set_cas0 _ _ _ _ h]
-  simp [hc, Mem.lookup_insert_self]
-
 /-- **incr/decr on an absent key create the item under any memory limit** (unless the expiration field forbids it) -/
 theorem C07_create_under_policy (p : Policy) (now : Nat) (k : Key) (hd : Meta) (d i : Nat) (inc : Bool)
     (h : p.inner.vis now k = none) (hexp : hd.ttl ≠ 0xffffffff) :
@@ -213,8 +186,6 @@ end Memc
 #print axioms Memc.C07_non_numeric
 #print axioms Memc.C07_create
 #print axioms Memc.C07_no_create
-#print axioms Memc.evictLoop_casId
-#print axioms Memc.policy_set_cas0
 #print axioms Memc.C07_create_under_policy
 #print axioms Memc.C07_update_under_policy
 #print axioms Memc.C07_no_create_under_policy
